@@ -338,6 +338,24 @@ def list_cases(rng, reps):
                 good = rng.random() < 0.8
                 frames = [frame_for(k % 4, good) for k in range(nfr)]
                 cases.append({"kind": "list", "shape": "tuple", "arity": arity, "frames": frames})
+        # binary-bearing commands inside a list (shape "arts"): a picture chunk in a frame that is not the first, followed by
+        # frames without one - the whole reply goes through the real protocol layer in one receive
+        arts_kinds = [0, 5, 5, 5, 1, 5, 0, 5]
+        for arity in range(2, 9):
+            for _rep in range(3):
+                frames = []
+                for k in range(arity):
+                    if arts_kinds[k] != 5:
+                        frames.append(frame_for(arts_kinds[k], True))
+                    elif rng.random() < 0.5:
+                        frames.append({"fields": [], "bin": []})
+                    else:
+                        data = [rng.choice([10, 79, 75, 0, 255, 98]) for _ in range(rng.choice([0, 1, 5, 40]))]
+                        f = [kv("size", str(rng.choice([len(data), 40, 70000])))]
+                        if rng.random() < 0.5:
+                            f.append(kv("type", "image/png"))
+                        frames.append({"fields": f, "bin": [data]})
+                cases.append({"kind": "list", "shape": "arts", "arity": arity, "frames": frames})
         for arity in (0, 1, 2, 3, 5, 9):
             for delta in (0, 0, -1, 1, 2):
                 nfr = max(0, arity + delta)
